@@ -787,3 +787,25 @@ func ReachesWithout(start ssa.Instruction, target func(ssa.Instruction) bool, he
 	}
 	return false
 }
+
+// ScanBlocks returns the blocks a structural rule scans for fn: fn's own blocks and, in InlineHelpers mode, the blocks
+// of the unexported same-package helpers fn calls (transitively) — an instruction moved into such a helper is still
+// "in" the function for the rule's purpose.
+func ScanBlocks(fn *ssa.Function) []*ssa.BasicBlock {
+	if fn == nil {
+		return nil
+	}
+	if !InlineHelpers || inHelperScan {
+		return fn.Blocks
+	}
+	out := append([]*ssa.BasicBlock(nil), fn.Blocks...)
+	inHelperScan = true
+	hs := HelperCallees(fn)
+	inHelperScan = false
+	for _, h := range hs {
+		if h.Parent() == nil {
+			out = append(out, h.Blocks...)
+		}
+	}
+	return out
+}
